@@ -51,6 +51,18 @@ def validate_protocol(rep, wd, tdir):
     rep.notes.append("Trace_LexProc: %d recorded parses (%d distinct event shapes) validated against JetLexProc, %d rejected"
                      % (total, len(shapes), rejected))
 
+def apalache_inductive(rep, wd):
+    """unbounded safety of the protocol: the inductive invariant of spec/LexProcInd.tla (left ranges over Nat),
+    Init => IndInv and IndInv /\\ Next => IndInv' discharged by Apalache"""
+    import subprocess
+    for args, what in ((["--init=Init", "--length=0"], "Init => IndInv"), (["--init=IndInit", "--length=1"], "IndInv /\\ Next => IndInv'")):
+        p = subprocess.run(["timeout", "600", "apalache-mc", "check", "--cinit=CInit", "--inv=IndInv"] + args + ["LexProcInd.tla"],
+                           cwd=wd, stdout=subprocess.PIPE, stderr=subprocess.STDOUT, text=True)
+        if "EXITCODE: OK" not in p.stdout:
+            raise Inconclusive("Apalache did not discharge %s: %s" % (what, p.stdout[-600:]))
+    rep.notes.append("LexProcInd (Apalache): the inductive invariant (TypeOK, closed <=> lexer done, done => end sent, end sent => nothing left, "
+                     "returned => end sent, NoStuck) holds for every number of items")
+
 def run(rep, tier, seed):
     wd = spec_scratch()
     exe = build_harness()
@@ -69,6 +81,8 @@ def run(rep, tier, seed):
         raise Inconclusive("the re-panic-without-drain path was expected to leave the lexer goroutine blocked: %s %s" % (r.violated, r.error))
     rep.notes.append("JetLexProc: draining parser proves no deadlock / no leak; the runtime.Error path (re-panic without drain) "
                      "is refuted by TLC (lexer blocked forever) - reachable only through a runtime error in the parser")
+    if tier == "thorough":
+        apalache_inductive(rep, wd)
     fams = [("JetStruct.tla", "MC_Struct_%s.cfg" % tier, "struct", ["A", "C"] if tier == "quick" else ["A", "B", "C", "D"]),
             ("JetLexemes.tla", "MC_Lexemes_quick.cfg", "lexeme", ["A"] if tier == "quick" else ["A", "C"])]
     if tier == "thorough":
